@@ -1,5 +1,7 @@
 package main
 
+import "os"
+
 
 func (r *Recorder) BeginBlock() string {
 	ctx := r.c.CtxV()
@@ -15,3 +17,39 @@ func (r *Recorder) EndBlock() string {
 	return out
 }
 
+
+// Blocks runs n empty blocks and records them as ONE step (the model iterates
+// BeginBlock/EndBlock n times). Falls back to block-by-block recording when VERIF_BLOCKWISE is set.
+func (r *Recorder) Blocks(n int) string {
+	if n <= 0 {
+		return "ok"
+	}
+	if n < 3 || os.Getenv("VERIF_BLOCKWISE") != "" {
+		for i := 0; i < n; i++ {
+			if out := r.BeginBlock(); out != "ok" {
+				return out
+			}
+			if out := r.EndBlock(); out != "ok" {
+				return out
+			}
+		}
+		return "ok"
+	}
+	ctx := r.c.CtxV()
+	out := "ok"
+	done := 0
+	for i := 0; i < n; i++ {
+		if o := r.c.BeginBlock(); o != "ok" {
+			out = o
+			break
+		}
+		if o := r.c.EndBlock(); o != "ok" {
+			out = o
+			break
+		}
+		done++
+	}
+	r.Step(ctx, "Blocks", L(S("Blocks"), Z(int64(n)), Z(5)), out)
+	r.Ops["BlocksCovered"] += done
+	return out
+}
